@@ -133,6 +133,7 @@ Inductive call :=
 | CallTx (ep : entry_point)
          (principal : addr)        (* FromAddress / Creator / Authority of the message = its GetSigners *)
          (subject : addr)          (* operator named in the payload (SubmitTaskResult), else = principal *)
+         (stage : N)               (* SubmitTaskResult: 1 = phase-one commit, 2 = phase-two reveal; 0 elsewhere *)
          (feeder nonce : N)        (* price submission: feeder id and nonce *)
          (auth : txauth)
          (new_gateway : addr)      (* assets UpdateParams: gateway address in the new params *)
@@ -143,7 +144,7 @@ Inductive call :=
           (biz_ok : bool).
 
 Definition ep_of (c : call) : entry_point :=
-  match c with CallEvm ep _ _ _ _ _ _ _ | CallTx ep _ _ _ _ _ _ _ | CallGov ep _ _ => ep end.
+  match c with CallEvm ep _ _ _ _ _ _ _ | CallTx ep _ _ _ _ _ _ _ _ | CallGov ep _ _ => ep end.
 
 Inductive verdict :=
 | Accepted        (* the entry point took effect *)
@@ -319,7 +320,7 @@ Definition params_handler (c : cfg) (s : state) (ep : entry_point) (authority_fi
        | _ => (log_effect s ep authority_field, Accepted)
        end.
 
-Definition tx_dispatch (c : cfg) (s : state) (ep : entry_point) (principal subject : addr) (feeder nonce : N)
+Definition tx_dispatch (c : cfg) (s : state) (ep : entry_point) (principal subject : addr) (stage feeder nonce : N)
            (a : txauth) (new_gateway : addr) (biz_ok : bool) : state * verdict :=
   match family_of ep with
   | FSigner =>
@@ -327,7 +328,10 @@ Definition tx_dispatch (c : cfg) (s : state) (ep : entry_point) (principal subje
       else if biz_ok then (log_effect s ep principal, Accepted) else (s, RejectedMsg)
   | FSignerSubject =>
       if negb (std_ante principal a) then (s, RejectedAnte)
+      (* SetTaskResultInfo: `addr != info.OperatorAddress` is the FIRST check, before the switch on info.Stage,
+         so it binds the phase-one commit and the phase-two reveal alike; any other stage value is an error *)
       else if negb (String.eqb principal subject) then (s, RejectedMsg)
+      else if negb (N.eqb stage 1 || N.eqb stage 2) then (s, RejectedMsg)
       else if biz_ok then (log_effect s ep principal, Accepted) else (s, RejectedMsg)
   | FStubPanic =>
       if negb (std_ante principal a) then (s, RejectedAnte) else (s, RejectedMsg)
@@ -350,8 +354,8 @@ Definition dispatch (c : cfg) (s : state) (cl : call) : state * verdict :=
   match cl with
   | CallEvm ep caller _ origin sender new_owners new_task biz_ok =>
       evm_dispatch s ep caller origin sender new_owners new_task biz_ok
-  | CallTx ep principal subject feeder nonce a new_gateway biz_ok =>
-      tx_dispatch c s ep principal subject feeder nonce a new_gateway biz_ok
+  | CallTx ep principal subject stage feeder nonce a new_gateway biz_ok =>
+      tx_dispatch c s ep principal subject stage feeder nonce a new_gateway biz_ok
   | CallGov ep new_gateway biz_ok =>
       match family_of ep with
       | FParams => params_handler c s ep (st_authority s) new_gateway biz_ok
@@ -362,7 +366,7 @@ Definition dispatch (c : cfg) (s : state) (cl : call) : state * verdict :=
 (* the unrepaired oracle branch, kept to state what was wrong *)
 Definition dispatch_unfixed (c : cfg) (s : state) (cl : call) : state * verdict :=
   match cl with
-  | CallTx M_oracle_CreatePrice principal _ feeder nonce a _ biz_ok =>
+  | CallTx M_oracle_CreatePrice principal _ _ feeder nonce a _ biz_ok =>
       if negb (oracle_sig_ok_unfixed principal a) then (s, RejectedAnte)
       else match check_and_increase_nonce principal feeder nonce (st_nonces s) with
            | None => (s, RejectedAnte)
@@ -402,7 +406,7 @@ Definition authorized (c : cfg) (s : state) (cl : call) : bool :=
       | FAvsOperator | FAvsBls => String.eqb sender origin   (* opt-in/out, key change: only for the tx signer *)
       | _ => false
       end
-  | CallTx ep principal subject _ _ a _ _ =>
+  | CallTx ep principal subject _ _ _ a _ _ =>
       match family_of ep with
       | FSigner | FStubPanic => signed_by a principal
       | FSignerSubject => signed_by a principal && String.eqb principal subject
@@ -419,6 +423,23 @@ Definition authorized (c : cfg) (s : state) (cl : call) : bool :=
 (* entry points whose guard, as written in the code, does not establish the property's sentence *)
 Definition known_gap (ep : entry_point) : bool :=
   match family_of ep with FAvsOperator | FAvsBls | FAvsChallenge => true | _ => false end.
+
+(* what the code DOES guarantee for those entry points: the effect is bound to the calling contract —
+   opt-in/out only into the AVS registered at the caller's own address, a challenge only on a task contract that is
+   the caller itself and belongs to a registered AVS; for the BLS key registration nothing at all *)
+Definition is_some {A} (o : option A) : bool := match o with Some _ => true | None => false end.
+
+Definition gap_guarantee (s : state) (cl : call) : bool :=
+  match cl with
+  | CallEvm ep caller _ _ _ _ _ _ =>
+      match family_of ep with
+      | FAvsOperator => is_some (find_avs caller (st_avs s))
+      | FAvsChallenge => is_some (find_avs_by_task caller (st_avs s))
+      | FAvsBls => true
+      | _ => false
+      end
+  | _ => false
+  end.
 
 (* runs *)
 Fixpoint run (c : cfg) (s : state) (cs : list call) : state :=
@@ -500,7 +521,7 @@ Definition check_case (k : case) : option nat :=
   else match c_call k with
        | CallEvm _ caller _ _ _ _ _ _ =>
            if list_eqb String.eqb (owners_at caller (st_avs s')) (o_owners_after o) then None else Some 4%nat
-       | CallTx M_oracle_CreatePrice p _ feeder _ _ _ _ =>
+       | CallTx M_oracle_CreatePrice p _ _ feeder _ _ _ _ =>
            if N.eqb (lookup_nonce p feeder (st_nonces s')) (o_nonce_after o) then None else Some 5%nat
        | _ => None
        end.
@@ -508,11 +529,14 @@ Definition check_case (k : case) : option nat :=
 (* the property itself, evaluated on what the implementation did (no use of dispatch):
      1: the call took effect although the caller is not the rightful one
      2: rejected, yet some module store changed while the caller was not the rightful one
-     3: rejected by the ante handler, yet something (module stores, accounts) changed *)
+     3: rejected by the ante handler, yet something (module stores, accounts) changed
+     4: one of the four gap entry points took effect without even the binding to the calling contract that the code
+        does enforce (never matched by a recorded finding: the harness tags only cases in which the binding holds) *)
 Definition monitor_case (k : case) : option nat :=
   let o := c_obs k in
   let auth := authorized (c_cfg k) (c_state k) (c_call k) in
-  if obs_accepted o && negb auth then Some 1%nat
+  if obs_accepted o && known_gap (ep_of (c_call k)) && negb (gap_guarantee (c_state k) (c_call k)) then Some 4%nat
+  else if obs_accepted o && negb auth then Some 1%nat
   else if negb auth && (o_modules_changed o) then Some 2%nat
   else match o_result o with
        | OAnteRejected => if o_modules_changed o || o_accounts_changed o then Some 3%nat else None
